@@ -8,6 +8,9 @@ PROPERTY = 'C07'
 LEVEL = 'model_checking'
 ENGINE = 'hist'
 FLAVOURS = ('plain',)
+# plain flavour under the glibc malloc checker: a byte written past the end of a heap block by the (uninstrumented) Fortran
+# library aborts the process in free() and is reported as a killed interpreter
+EXTRA_ENV = {'plain': {'LD_PRELOAD': '/lib/x86_64-linux-gnu/libc_malloc_debug.so.0', 'MALLOC_CHECK_': '3'}}
 RULE = ('(1) scaling grid: for every cone structure x mnl x pair (s,z) of enumerated strictly interior points, '
         'compute_scaling must satisfy the documented invariants and W z = W^-T s = lambda; then for every second pair '
         'update_scaling is fed exactly what the solvers feed it and the same invariants are required (histories of '
